@@ -129,7 +129,7 @@ def check_keys(ctx):
             if isinstance(rx, Raises):
                 bad_rt.append('%s%s: written %r; reading it, %r' % (ptype, ' with numbers' if numeric else '', wd, rx))
                 continue
-            if rx is None or len(rx) != 8 or any(v is UNKNOWN for v in (rx[2], rx[3])) or (isinstance(rx[3], dict) and any(v is UNKNOWN for v in rx[3].values())):
+            if rx is None or len(rx) not in (4, 8) or any(v is UNKNOWN for v in (rx[2], rx[3])) or (isinstance(rx[3], dict) and any(v is UNKNOWN for v in rx[3].values())):
                 raise AnalysisError('import_sbml_reactions: what is read from the annotation of a %s reaction could not be evaluated (%r)' % (ptype, rx))
             if not (rx[2] == ptype and same_values(rx[3], wd)):
                 bad_rt.append('%s%s: written %r, read %r (type %r)' % (ptype, ' with numbers' if numeric else '', wd, rx[3], rx[2]))
@@ -148,9 +148,10 @@ def check_keys(ctx):
     from ..templates import Hole
     got = {}
     detail = []
-    for numeric, ptype in ((False, 'massaction'), (True, 'massaction'), (False, 'general')):
-        # (a delayed reaction with a general rate has a delay annotation and no propensity annotation)
-        sample = {'type': Hole('DT'), 'reactants': [Hole('R1'), Hole('R1'), Hole('R2')], 'products': [Hole('P1')],
+    for numeric, ptype, no_species in ((False, 'massaction', False), (True, 'massaction', False), (False, 'general', False), (False, 'massaction', True)):
+        # (a delayed reaction with a general rate has a delay annotation and no propensity annotation; a delayed reaction may have no
+        # delayed species at all - its delay type and parameters are still part of the model)
+        sample = {'type': Hole('DT'), 'reactants': [] if no_species else [Hole('R1'), Hole('R1'), Hole('R2')], 'products': [] if no_species else [Hole('P1')],
                   'parameters': {key: (1.5 + i if numeric else Hole('D_' + key)) for i, key in enumerate(sorted(dreq))}}
         ann, _ = eval_writer(fw, ptype, sample, None)
         if isinstance(ann, Raises):
@@ -172,7 +173,7 @@ def check_keys(ctx):
             raise AnalysisError('import_sbml_reactions: the reaction tuple could not be evaluated')
         if any(v is UNKNOWN for v in rx[4:7]) or (isinstance(rx[7], dict) and any(v is UNKNOWN for v in rx[7].values())):
             raise AnalysisError('import_sbml_reactions: what is read from a delay annotation could not be evaluated (%r)' % (rx[4:],))
-        ok_here = {'type': rx[4] == 'DT', 'reactants': rx[5] == ['R1', 'R1', 'R2'], 'products': rx[6] == ['P1']}
+        ok_here = {'type': rx[4] == 'DT', 'reactants': no_species or rx[5] == ['R1', 'R1', 'R2'], 'products': no_species or rx[6] == ['P1']}
         for key in dreq:
             ok_here[key] = isinstance(rx[7], dict) and key in rx[7] and same_value(rx[7][key], sample['parameters'][key])
         extra = isinstance(rx[7], dict) and set(rx[7]) - dreq
